@@ -37,5 +37,10 @@ def run(ctx):
                      "distinct = hash of script+configuration; non-trivial = the call is started and >= 3 controller steps")
     ctx.assumptions.append("stream.Merge: an input's Next returns once the context it was given is cancelled (stated by the property; the harness sources do)")
     ctx.assumptions.append("fairness of the Go scheduler is not decided by proof: progress theorems say a step is enabled, the harness checks quiescent states")
-    vlib.handle_broken_proof(ctx)
+    def deep():
+        # only when an obligation (e.g. the source census) no longer checks: patience mode, bigger storms
+        for tag, (spec, mod_, _) in SPECS.items():
+            if mod_ == "harness_merge":
+                vlib.patience_part(ctx, spec, exe, proofs_ok, tag=tag, ncases=24, ms=6500)
+    vlib.handle_broken_proof(ctx, deep if ctx.tier == "quick" else None)
     ctx.finish(trusted_extra=["harness_merge (separate Go module: producers/consumers/gated sources, goroutine counting by runtime.Stack) and props/merge_common.py"])
